@@ -1,6 +1,6 @@
 (* C09 — property theorems only. *)
 From Coq Require Import List Bool NArith ZArith.
-From AV Require Import Model.C09_Layout Model.C09_Validate Proofs.C09_Tree Proofs.C09_Accept Proofs.C09_Main.
+From AV Require Import Gen.Consts Model.C09_Layout Model.C09_Validate Proofs.C09_Tree Proofs.C09_Accept Proofs.C09_Main Proofs.C09_GenTie.
 Import ListNotations.
 
 (* A per-node implication between validators lifts to whole array trees of any shape and depth. *)
@@ -31,3 +31,9 @@ Example accept_nonvacuous :
              [[0;0;0;0; 2;0;0;0; 2;0;0;0; 3;0;0;0]%N] [child] in
   tree_all phys a = true /\ tree_all covered a = true /\ impl_validate_full a = true /\ spec_valid a = true.
 Proof. vm_compute. repeat split. Qed.
+
+(* The inline-view threshold of the models is the constant of the current source tree. *)
+Theorem model_constants_match_source :
+  Z.of_N max_inline_view_len = arrow_data_byte_view__MAX_INLINE_VIEW_LEN.
+Proof. exact tie_max_inline_view_len. Qed.
+Print Assumptions model_constants_match_source.
